@@ -297,7 +297,7 @@ def render(deck):
         return fortran_num(v, count[0]) if fort else num(v)
     for surf in deck['surfs']:
         tr = f' {surf["tr"]}' if surf.get('tr') is not None else ''
-        out.append(wrap(f'{surf["id"]}{tr} {surf["mn"]} '
+        out.append(wrap(f'{surf.get("bc", "")}{surf["id"]}{tr} {surf["mn"]} '
                         + ' '.join(spell(v) for v in surf['params'])))
     out.append('')
     for tr in deck['trs']:
@@ -316,6 +316,9 @@ def cli_args(deck):
         args += ['--lattice', opt]
     if deck.get('skipcomp'):
         args.append('--skip-compositions')
+    if deck.get('skipbc'):
+        args.append('--skip-boundary-conditions')
+    args += list(deck.get('extra_args', []))
     return args
 
 
@@ -415,7 +418,9 @@ def cdeck(deck):
                     for n, toks in deck['impcards']) + '\n    '
             + clist(ccell(c, deck) for c in deck['cells']) + '\n    '
             + clist(clist(cstr(t) for t in toks) for _, toks in deck['mats'])
-            + ' ' + cbool(bool(deck.get('skipcomp'))) + ')')
+            + ' ' + cbool(bool(deck.get('skipcomp'))) + ' '
+            + clist(cz(sf['id']) for sf in deck['surfs'] if sf.get('bc'))
+            + ' ' + cbool(bool(deck.get('skipbc'))) + ')')
 
 
 # ---------------------------------------------------------------------------
@@ -686,6 +691,23 @@ def gen_valid_deck(rng, features=None):
     deck['cells'] = cells
     deck['features'] = sorted(features)
     deck['fortran'] = rng.random() < 0.3
+    # option sets that must not change what is accepted
+    how = rng.random()
+    if how < 0.45:
+        deck['extra_args'] = rng.choice([
+            ['--skip-geomcomp'], ['--skip-deduplication'],
+            ['--skip-geomcomp', '--skip-deduplication'],
+            ['--always-inline-filling'], ['--always-inline-filled'],
+            ['--max-inline-score', '0.5']])
+    if rng.random() < 0.15:
+        deck['skipcomp'] = True
+    if rng.random() < 0.1:
+        deck['skipbc'] = True
+    # reflecting / white flags: supported on surfaces made of one piece
+    for surf in plain:
+        one_piece = surf['mn'] not in MACROS or surf['mn'] in ('sph', 'ell')
+        if one_piece and surf.get('tr') is None and rng.random() < 0.1:
+            surf['bc'] = rng.choice(['*', '+'])
     return deck
 
 
@@ -1126,6 +1148,26 @@ def f_facet_range_filler(deck, rng):
     return out
 
 
+def f_flagged_macrobody(deck, rng):
+    '''Boundary flag on a macrobody made of several surfaces (unsupported),
+    under any option set that still writes the boundary conditions.'''
+    out = []
+    cands = [k for k, s in enumerate(deck['surfs'])
+             if s['mn'] in MACROS and s['mn'] not in ('sph', 'ell')]
+    for k in rng.sample(cands, min(2, len(cands))):
+        d = _clone(deck)
+        d['surfs'][k]['bc'] = rng.choice(['*', '+'])
+        d['skipbc'] = False
+        if rng.random() < 0.6:
+            d['extra_args'] = rng.choice([['--skip-geomcomp'],
+                                          ['--skip-geomcomp', '--skip-deduplication'],
+                                          ['--skip-deduplication']])
+            d['skipcomp'] = rng.random() < 0.4
+        out.append((d, f'surface {d["surfs"][k]["id"]} {d["surfs"][k]["mn"]} flagged '
+                       f'{d["surfs"][k]["bc"]} options {cli_args(d)}'))
+    return out
+
+
 def f_facet_zero_trcl(deck, rng):
     '''Facet 0 in a cell that carries a TRCL (looked up in the MCNP surface
     dictionary, which refuses it).'''
@@ -1316,6 +1358,7 @@ def f_imp_short(deck, rng):
 
 def f_mixed_fractions(deck, rng):
     d = _clone(deck)
+    d['skipcomp'] = False
     if not d['mats']:
         d['mats'].append([rng.randint(50, 60), gen_material(rng)])
     k = rng.randrange(len(d['mats']))
@@ -1388,6 +1431,7 @@ FAULTS = {
     'surface_arity': (f_surface_arity, []),
     'macro_arity': (f_macro_arity, []),
     'unknown_mnemonic': (f_unknown_mnemonic, []),
+    'flagged_macrobody': (f_flagged_macrobody, []),
     'facet_range': (f_facet_range, ['facets']),
     'facet_zero': (f_facet_zero, ['facets']),
     'facet_range_trcl': (f_facet_range_trcl, ['trcl', 'facets']),
